@@ -41,6 +41,7 @@ type Exec struct {
 	boxInfo  map[string]boxRec
 	ctxPkg   *types.Package
 	defs     map[string]storeDef // heap version symbol -> its defining store
+	mapKeyLen map[string]int64 // dom heaps of Go maps keyed by an integer array type -> array length
 	allocSyms map[string]bool
 	sliceBase map[string]string // slice symbol -> base term
 	rowDefs  map[string]storeDef // heap version symbol -> element store in the written row
@@ -376,6 +377,11 @@ func (e *Exec) elemHeap(t types.Type) (string, Sort) {
 // wellFormed asserts the typing invariant of a freshly introduced heap version: every stored reference or slice
 // points at or below the current allocation top (and slices have consistent headers).
 func (e *Exec) wellFormed(name, sym string, st *State) {
+	if n, isArrKey := e.mapKeyLen[name]; isArrKey {
+		// keys of a Go map with an array key type are array values (normalised)
+		r, k := e.Out.FreshName("wf$r"), e.Out.FreshName("wf$k")
+		e.Out.Assert("(forall ((" + r + " Int) (" + k + " (Array Int Int))) (! (=> (select (select " + sym + " " + r + ") " + k + ") (arrnorm " + k + " " + IntLit(n) + ")) :pattern ((select (select " + sym + " " + r + ") " + k + "))))")
+	}
 	t, ok := e.heapValT[name]
 	if !ok {
 		return
@@ -453,6 +459,12 @@ func (e *Exec) mapHeaps(m *types.Map) (dom, val string, ds, vs Sort) {
 	k, v := e.sortOf(m.Key()), e.sortOf(m.Elem())
 	n := "M$" + e.typeName(m.Key()) + "$" + e.typeName(m.Elem())
 	e.noteHeapT(n+"$val", m.Elem())
+	if arr, ok := m.Key().Underlying().(*types.Array); ok && k == ArrSort(SInt, SInt) {
+		if e.mapKeyLen == nil {
+			e.mapKeyLen = map[string]int64{}
+		}
+		e.mapKeyLen[n+"$dom"] = arr.Len()
+	}
 	return n + "$dom", n + "$val", ArrSort(SInt, ArrSort(k, SBool)), ArrSort(SInt, ArrSort(k, v))
 }
 
